@@ -6,5 +6,7 @@ CONSTANTS
   MaxConns = 4
   MaxT6 = 1
   MaxPk = 4
+  RRs = {"cpr0"}
+  ScopeSensitive = FALSE
   Faults = {"wfail", "dialfail"}
 INVARIANTS NoDup Conservation HeldAreInitials BatchOrdered CompleteAtEnd NameRoutes OneTransport Emit
